@@ -3,7 +3,7 @@ package sqlh
 // IsZeroGV: isZero of internal/fields on the described value.
 func IsZeroGV(v GV) bool {
 	switch v.T {
-	case "string", "Label", "bytes":
+	case "string", "Label", "bytes", "Loud":
 		return v.S == "" && v.T != "bytes"
 	case "bool":
 		return !v.B
